@@ -18,9 +18,9 @@ TABLES = [
 ]
 HEADS = {
     0: [b"TEST:A?", b"test:a?", b":TEST:B?", b"B?", b"A?", b"SUB:C?", b"C?", b"D", b"TEST:SUB:D", b":TEST:SUB:C?", b"*IDN?", b"*idn?", b"*RST", b"II", b"ii", b"SYST:ERR?", b"SYSTEM:ERROR:NEXT?", b"ERR?", b"NEXT?", b"FOO", b"FOO:BAR?", b"TEST:A", b"TES:A?", b"*IDN"],
-    1: [b"MEAS:VOLT?", b"MEASURE:SCALAR:VOLTAGE:DC?", b"meas:scal:volt?", b"VOLT?", b"VOLT:AC?", b"SCAL:CURR?", b"CURR?", b":MEAS:CURR?", b"OUTP:FREQ", b"OUTP2:FREQ3", b"OUTPUT10:FREQUENCY", b"FREQ5", b"STAT", b"OUTP1:STAT", b"LEV", b"SOUR:LEV", b":SOURCE:LEVEL", b"*CLS", b"MEAS:VOLT:DC:X?", b"OUTP:FREQx"],
+    1: [b"MEAS:VOLT?", b"MEASURE:SCALAR:VOLTAGE:DC?", b"meas:scal:volt?", b"VOLT?", b"VOLT:AC?", b"SCAL:CURR?", b"CURR?", b":MEAS:CURR?", b"OUTP:FREQ", b"OUTP2:FREQ3", b"OUTPUT10:FREQUENCY", b"OUTPUT123:FREQUENCY4567", b"OUTPUT77:STATE", b"FREQ5", b"STAT", b"OUTP1:STAT", b"LEV", b"SOUR:LEV", b":SOURCE:LEVEL", b"*CLS", b"MEAS:VOLT:DC:X?", b"OUTP:FREQx"],
     2: [b"TEST:A?", b"TEST:SUB:A?", b"SUB:A?", b"A?", b"B?", b"TEST:B?", b":B?", b"TESTING:A?", b"TESTI:A?", b":A?"],
-    3: [b"CH1:RANG2:AUTO", b"CHAN:RANG:AUTO?", b"CHANNEL7:RANGE:AUTO", b"RANG3:AUTO", b"AUTO", b"AUTO?", b"CH2:LIM", b"CHAN3:RANG4:LIM", b"LIM", b"CH5", b":CH", b"*OPC?", b"CH1:RANG2:AUTO:X"],
+    3: [b"CH1:RANG2:AUTO", b"CHAN:RANG:AUTO?", b"CHANNEL7:RANGE:AUTO", b"CHANNEL1234:RANGE5678:AUTO", b"CHANNEL99:RANGE11:LIMIT", b"RANG3:AUTO", b"AUTO", b"AUTO?", b"CH2:LIM", b"CHAN3:RANG4:LIM", b"LIM", b"CH5", b":CH", b"*OPC?", b"CH1:RANG2:AUTO:X"],
     4: [b"A", b"B", b"C", b"D", b":A", b"A:B", b":A:B", b"A:B:C", b"A:B:C:D", b"*X", b"E", b"a:b", b"c", b"d"],
 }
 
